@@ -51,4 +51,20 @@ var plans = map[string]*Plan{
 		Assumptions: commonAssumptions,
 		ExpectProbes: []string{"recovered", "breaker-transitioned"},
 	},
+	"C02": {
+		Level:     "exploration",
+		Scenarios: []ScenPlan{{"lbhealth", 30000, 600000}},
+		QuickWallS: 120, ThoroughWallS: 1500,
+		Rule:        "Scenario lbhealth: real LoadBalancer, 1-6 scripted backends, every strategy, passive threshold 1-4, window 1-20s, optional active probing; drawn steps (request, burst, backend mode change, probe mode change, time passes) with a health observation through ListBackends/GetMetrics at every quiescent point; oracle: no dispatch into an observed unhealthy window, 503 only if no backend is outside every window.",
+		Real:        microReal, Stub: microStub, Assumptions: commonAssumptions,
+		ExpectProbes: []string{"ejection", "no-healthy-503", "recovered"},
+	},
+	"C04": {
+		Level:     "exploration",
+		Scenarios: []ScenPlan{{"lbhealth", 30000, 600000}},
+		QuickWallS: 120, ThoroughWallS: 1500,
+		Rule:        "Scenario lbhealth (see C02) with the cause/ejection envelope (ejection only after threshold failures or a failed probe; threshold failures in a row or a failed probe must eject), window enforcement, reporting (admin + metrics) and a bounded recovery workload per strategy after the window.",
+		Real:        microReal, Stub: microStub, Assumptions: commonAssumptions,
+		ExpectProbes: []string{"ejection", "recovered"},
+	},
 }
